@@ -6,7 +6,6 @@ import (
 	"os"
 	"runtime"
 	"slices"
-	"strings"
 	"sync/atomic"
 
 	"github.com/go-task/task/v3/errors"
@@ -439,8 +438,6 @@ func (e *Executor) FindMatchingTasks(call *Call) []*MatchingTask {
 		return nil
 	}
 	var matchingTasks []*MatchingTask
-	// A leading namespace separator refers to the root Taskfile
-	call.Task = strings.TrimPrefix(call.Task, ast.NamespaceSeparator)
 	// If there is a direct match, return it
 	if task, ok := e.Taskfile.Tasks.Get(call.Task); ok {
 		matchingTasks = append(matchingTasks, &MatchingTask{Task: task, Wildcards: nil})
